@@ -96,6 +96,8 @@ def run_virtual(coro_factory, *, inline_executor: bool = True, grace: float = 0.
             result = loop.run_until_complete(coro_factory())
         except LogicalDeadlock as dead:
             result = dead
+        except Exception as exc:  # noqa: BLE001 - what the scenario raised is an observation for the caller's oracle
+            result = exc
         return result, loop
     finally:
         try:
